@@ -241,6 +241,8 @@ Section MergeBW.
                                         | None => None
                                         | Some z1 =>
                                             if sexp_eqb n n1 then Some []
+                                            else if (match n with L s => is_recursive defs s | T (L h :: _) => is_recursive defs h | _ => false end)
+                                            then Some []          (* the inner definition refers to itself, directly or not *)
                                             else match zext_amount b2, last_child b2 with
                                                  | Some z2, Some dec =>
                                                      Some [GS [(here, Some (T [lf "define-fun"; n1; T []; nsort;
